@@ -8,7 +8,13 @@ fed key-permuted but equal documents and differently ordered file creation):
     configurations, memoization hashes),
 and in-process: FlowIR.override_object, ComponentSpecification._memoization_info_to_hash, dsl.namespace_to_flowir
 (S5: the loop that rewrites output references, S6: component / environment names; each also on a key-permuted copy
-of the document), plus a static scan (Python ast) of the anchored files for iteration over unordered sources.
+of the document), FlowIR.apply_replicate -> compile_component_aggregate (S7: the collection of replicated references
+and the aggregate() closure), plus a static scan (Python ast) of the anchored files for iteration over unordered
+sources (also a set handed to a function that iterates over the parameter receiving it).
+
+"The same result in every process" includes a process that has ALREADY loaded other things: SESSIONS are vars / pkg
+cases with several loads that one process performs one after the other and whose lists of variable files share
+files; every process performs them in its own order, each load first in one of them.
 
 "Every process" is represented by: 6 processes (hash seeds 0,1,2,3,random,4; six key orders of every
 document; six creation orders of every file set) on the implementation side, and by "every permutation
@@ -38,6 +44,14 @@ ASSUMPTIONS = [
     '(name, steps mapping, execute list), the component template names and the entry instance; rejections of a '
     'namespace for reasons outside these fields are not modelled (the generators do not produce them)',
     'YAML documents have no repeated keys (wfk); variable values are str/int/bool',
+    'a process is modelled without state (Det.Model.session = map of single loads); state kept by the implementation '
+    'between two loads is visible only to the session runs: 3-6 loads per process sharing files, 6 processes with '
+    'different load orders; state keyed by something that never repeats inside a run (e.g. absolute scratch paths of '
+    'another case) is not exercised',
+    'S7 (compile_component_aggregate): the regular-expression flavour of the search (a reference followed by /path, '
+    '`.` as wildcard) and the construction of translation_map are not modelled; the harness recomputes the replica '
+    'references in document order with the real compile_reference and takes the replicated producers from the real '
+    'propagate_replicate; two producers that share a relative spelling are outside the model',
     'directory listing order is varied through the creation order of the files (tmpfs/ext4 list in an order that '
     'depends on it), not controlled directly',
 ]
@@ -243,6 +257,150 @@ def gen_dsl_pkg(rng):
             'platform': None}
 
 
+# ------------------------------------------------------------------ sessions: several loads in ONE process
+def gen_loads(rng, names, vfiles, nloads):
+    """loads of one package that SHARE variable files: the same files in another order, subsets (a single file), the
+    same list twice, a repeated path; now and then a load finds another content in one of its files"""
+    full = list(names)
+    rng.shuffle(full)
+    lists = [full]
+    while len(lists) < nloads:
+        prev = rng.choice(lists)
+        r = rng.random()
+        if r < 0.3 and len(prev) > 1:
+            l = list(reversed(prev))
+        elif r < 0.5:
+            l = rng.sample(names, len(names))
+        elif r < 0.78:
+            l = rng.sample(names, rng.randint(1, max(1, len(names) - 1)))
+        elif r < 0.9:
+            l = list(prev)
+        else:
+            l = list(prev)
+            l.insert(rng.randint(0, len(l)), rng.choice(l))
+        lists.append(l)
+    loads = [{'given': l} for l in lists]
+    if rng.random() < 0.3:
+        ld = rng.choice(loads[1:])
+        n = rng.choice(ld['given'])
+        doc = copy.deepcopy(vfiles[n])
+        sect = doc.setdefault('global', {})
+        sect[rng.choice(NAMES[:3])] = 'rewritten-%d' % rng.randint(0, 99)
+        ld['override'] = {n: doc}
+    return loads
+
+
+def gen_session_case(rng, kind='vars'):
+    while True:
+        case = gen_vars_case(rng) if kind == 'vars' else (gen_flowir_pkg(rng) if rng.random() < 0.6 else gen_dsl_pkg(rng))
+        if len(case['vfiles']) >= 2:
+            break
+    case['loads'] = gen_loads(rng, sorted(case['vfiles']), case['vfiles'],
+                              rng.randint(3, 6) if kind == 'vars' else 3)
+    case['given'] = case['loads'][0]['given']
+    return case
+
+
+def load_table(case, i):
+    t = dict(case['vfiles'])
+    t.update(case['loads'][i].get('override') or {})
+    return t
+
+
+def expand_loads(cases, parsed):
+    """a session of n loads is n cases for the predicate and the model: (files as they were at that load, list given)
+    with the dump of that load"""
+    vc, vd = [], []
+    for case, dump in zip(cases, parsed):
+        if 'loads' not in case:
+            vc.append(case)
+            vd.append(dump)
+            continue
+        for i, ld in enumerate(case['loads']):
+            c = {k: v for k, v in case.items() if k != 'loads'}
+            c['given'] = ld['given']
+            c['vfiles'] = load_table(case, i)
+            c['session'] = {'load': i, 'loads': case['loads'], 'vfiles': case['vfiles']}
+            vc.append(c)
+            vd.append(dump['session'][i])
+    return vc, vd
+
+
+# ------------------------------------------------------------------ replicated producers + aggregating consumer (S7)
+REPL_FAMILIES = [['gen', 'mygen', 'remygen'], ['sim', 'presim', 'xpresim'], ['run', 'rerun', 'prerun'],
+                 ['a', 'ba', 'cba'], ['gen', 'genx', 'mygenx'], ['post', 'compost', 'post_b']]
+REPL_UNRELATED = ['gen', 'sim', 'run', 'post', 'mix']
+
+
+def gen_replica_components(rng, sensitive=False):
+    """2-3 replicating producers in stage 0 whose names are mostly suffix / prefix related, an AGGREGATING consumer of
+    >= 2 of them (relative and absolute spellings, with and without a file, longer names mostly first), optionally a
+    replicated (non aggregating) consumer and a consumer of the aggregate; returns (components, replicating ids, count).
+    sensitive: the systematic half of the family in which the order of the rewriting passes is observable: related
+    names, consumer in the stage of the producers, relative spellings with the same file, longer names first"""
+    related = sensitive or rng.random() < 0.8
+    names = rng.sample(rng.choice(REPL_FAMILIES), rng.choice([2, 2, 3])) if related else \
+        rng.sample(REPL_UNRELATED, rng.choice([2, 3]))
+    count = rng.choice([2, 2, 3])
+    by_var = rng.random() < 0.25
+    comps = []
+    for n in names:
+        comps.append({'name': n, 'stage': 0, 'command': {'executable': 'echo', 'arguments': 'hello %(x)s'},
+                      'workflowAttributes': {'replicate': '%(nrep)s' if by_var else count}})
+    agg_stage = 0 if sensitive else rng.choice([0, 0, 0, 1])
+    one_file = rng.choice(['', '', '/out.txt'])
+
+    def spell(n, stage, relative_ok):
+        f = one_file if sensitive else rng.choice(['', '', '', '/out.txt', '/dir/o.txt'])
+        if relative_ok and stage == 0 and (sensitive or rng.random() < 0.65):
+            return '%s%s:ref' % (n, f), 'stage0.%s%s:ref' % (n, f)
+        return 'stage0.%s%s:ref' % (n, f), ('%s%s:ref' % (n, f)) if stage == 0 else None
+
+    used = rng.sample(names, rng.randint(2, len(names)))
+    if sensitive or rng.random() < 0.7:
+        used.sort(key=len, reverse=True)
+    refs, args = [], []
+    for n in used:
+        a, other = spell(n, agg_stage, True)
+        refs.append(a)
+        args.append(other if (other and not sensitive and rng.random() < 0.15) else a)
+    if rng.random() < 0.3:
+        rng.shuffle(args)
+    if rng.random() < 0.15:
+        args.append(rng.choice(args))
+    if rng.random() < 0.1:
+        refs.append(rng.choice(refs))
+    comps.append({'name': 'agg', 'stage': agg_stage, 'references': refs,
+                  'command': {'executable': 'cat', 'arguments': ' '.join(['-n %(y)s'] + args)},
+                  'workflowAttributes': {'aggregate': True}})
+    if rng.random() < 0.5:
+        st = rng.choice([0, 1])
+        rr = [spell(n, st, True)[0] for n in rng.sample(names, rng.randint(1, 2))]
+        comps.append({'name': 'each', 'stage': st, 'references': rr,
+                      'command': {'executable': 'wc', 'arguments': ' '.join(rr)}})
+    if rng.random() < 0.4:
+        comps.append({'name': 'final', 'stage': agg_stage + rng.choice([0, 1]), 'references': ['stage%d.agg:ref' % agg_stage],
+                      'command': {'executable': 'ls', 'arguments': 'stage%d.agg:ref %%(x)s' % agg_stage}})
+    order = list(range(len(comps)))
+    if rng.random() < 0.4:
+        rng.shuffle(order)
+    return [comps[i] for i in order], set((0, n) for n in names), count
+
+
+def gen_replica_pkg(rng, sensitive=False):
+    comps, _, count = gen_replica_components(rng, sensitive)
+    flowir = {'components': comps,
+              'variables': {'default': {'global': {'x': 'pkg-x', 'y': 'pkg-y', 'nrep': count}}}}
+    k = rng.choice([0, 0, 1, 2])
+    names = ['%s.yaml' % w for w in rng.sample(WORDS, k)]
+    vfiles = {n: {'global': {v: 'f%d-%s' % (fi, v) for v in rng.sample(['x', 'y'], rng.randint(1, 2))}}
+              for fi, n in enumerate(names)}
+    given = list(names)
+    rng.shuffle(given)
+    return {'kind': 'pkg', 'format': 'flowir', 'doc': flowir, 'files': {}, 'inputs': {}, 'vfiles': vfiles,
+            'given': given, 'platform': None, 'family': 'replica'}
+
+
 def variant_of(rng, case, v):
     """the case as process number v sees it: same content, other key orders / creation orders (v = 0: as generated)"""
     c = copy.deepcopy(case)
@@ -262,6 +420,21 @@ def variant_of(rng, case, v):
         rng.shuffle(forder)
     c['create_order'] = order if c['kind'] == 'vars' else forder
     c['vcreate_order'] = order
+    if 'loads' in c:
+        # every process performs the loads of a session in its own order: process v starts with load v mod n, which
+        # is therefore performed by a process that has not touched the files of the session yet (a FRESH process for
+        # that load); the other loads follow in a random order (as generated in process 0)
+        n = len(c['loads'])
+        lo = list(range(n))
+        if v > 0:
+            first = v % n
+            rest = [i for i in lo if i != first]
+            rng.shuffle(rest)
+            lo = [first] + rest
+        c['load_order'] = lo
+        for ld in c['loads']:
+            if ld.get('override'):
+                ld['override'] = {k: to_transport(permute_keys(rng, d) if v > 0 else d) for k, d in ld['override'].items()}
     for key in ('flowir', 'doc'):
         if key in c:
             c[key] = to_transport(c[key])
@@ -322,13 +495,22 @@ def first_diff(a, b, path=''):
 
 
 def short_case(case):
-    c = {k: case[k] for k in ('kind', 'given', 'platform', 'nstages') if k in case}
+    c = {k: case[k] for k in ('kind', 'given', 'platform', 'nstages', 'family') if k in case}
     c['vfiles'] = {n: to_transport(d) for n, d in case['vfiles'].items()}
     c['flowir' if 'flowir' in case else 'doc'] = to_transport(case.get('flowir') or case.get('doc'))
     if 'files' in case:
         c['files'] = case['files']
         c['inputs'] = case['inputs']
         c['format'] = case['format']
+    if 'loads' in case:
+        c['loads'] = [{'given': ld['given'], 'override': {n: to_transport(d) for n, d in (ld.get('override') or {}).items()}}
+                      for ld in case['loads']]
+    if 'session' in case:
+        ss = case['session']
+        c['session'] = {'load': ss['load'], 'vfiles': {n: to_transport(d) for n, d in ss['vfiles'].items()},
+                        'loads': [{'given': ld['given'],
+                                   'override': {n: to_transport(d) for n, d in (ld.get('override') or {}).items()}}
+                                  for ld in ss['loads']]}
     return c
 
 
@@ -410,9 +592,32 @@ def last_def(case, p):
     return found, val
 
 
-def check_vars(ctx, cases, parsed, terms, term_cases):
+def check_vars(ctx, cases, parsed, terms, term_cases, layer_terms=None):
     for case, dump in zip(cases, parsed):
         paths = leaf_paths(case)
+        if 'session' in case:
+            ctx.count('session:vars_load')
+            ctx.count('session:vars_load:%s' % ('other_content' if case['session']['loads'][case['session']['load']].get('override')
+                                                else 'same_content'))
+        lm = dump.get('layer_many')
+        if lm is not None and layer_terms is not None:
+            # layer_many_variable_files on the list as given: last file wins + Det.Model.layer_many
+            if 'error' in lm:
+                ctx.fail({'case': short_case(case), 'how': 'layer_many_variable_files', 'error': lm['error']},
+                         'loading valid user variable files raised', [])
+            else:
+                for p_ in paths:
+                    found, want = last_def(case, p_)
+                    got = get_path(lm['uv'], p_)
+                    if got != want or type(got) != type(want):
+                        ctx.fail({'case': short_case(case), 'how': 'layer_many_variable_files', 'variable': list(p_),
+                                  'got': got, 'last_file_gives': want},
+                                 'a user variable does not have the value of the last file given that defines it', [])
+                        break
+            layer_terms.append((cpair(cpair(clist(sorted(case['vfiles'].items()), lambda kv: cpair(cstr(kv[0]), cjv(kv[1]))),
+                                            clist(case['given'], cstr)),
+                                      copt(None if 'error' in lm else lm['uv'], cjv)),
+                                {'case': short_case(case), 'impl_layer_many': lm}))
         multi = sum(1 for p in paths if sum(1 for n in set(case['given']) if get_path(case['vfiles'][n], p) is not None) >= 2)
         ctx.case([case['given'], case['vfiles'], case['flowir']], multi >= 1 and len(set(case['given'])) >= 2)
         ctx.count('vars:files=%d' % len(set(case['given'])))
@@ -474,6 +679,13 @@ def check_pkgs(ctx, cases, parsed, ref_terms):
         ncomp = len(dump.get('names', []))
         ctx.case([case['format'], case['doc'], case['given'], case['vfiles']], ok and ncomp >= 2)
         ctx.count('pkg:%s:%s' % (case['format'], 'loaded' if ok else 'rejected:' + dump['error']))
+        if 'session' in case:
+            ctx.count('session:pkg_load')
+        if case.get('family') == 'replica':
+            ctx.count('pkg:replica_family:%s' % ('loaded' if ok else 'rejected:' + dump['error']))
+            if ok:
+                agg = [n for n in dump['names'] if n.endswith('.agg')]
+                ctx.count('pkg:replica_family:aggregate_producers', sum(len([e for e in dump['edges'] if e[1] == a]) for a in agg))
         if not ok:
             continue
         ctx.count('pkg:components', ncomp)
@@ -731,6 +943,114 @@ def s5_inprocess(ctx, only=None):
                      'C15 S5: arguments after convert_outputreferences_to_datareferences vs Det.Model.replace_refs_sorted')
 
 
+# ------------------------------------------------------------------ in-process: S7, aggregation of replicated references
+HEADER_AGG = HEADER + '\nRequire Import V.Det.Aggregate.'
+
+
+def s7_inprocess(ctx, only=None):
+    """the real FlowIR.apply_replicate on generated component lists; for every aggregating component: the collection
+    of replicated references it hands to compile_component_aggregate vs the document-ordered list, and the closure
+    `aggregate(string)` of the real compile_component_aggregate (built from that collection) on the strings of the
+    component and on strings that mix the spellings vs Det.Aggregate.aggregate_list over the document-ordered list.
+    Which producers are replicated is taken from the real propagate_replicate; the spellings and the references to
+    the replicas are recomputed with the real ParseDataReferenceFull / compile_reference."""
+    import experiment.model.frontends.flowir as F
+    FI = F.FlowIR
+    rng = ctx.rng
+    jobs = [(c['doc']['components'], c['doc'].get('variables', {}).get('default', {}).get('global', {}))
+            for c in corpus_cases() if c.get('family') == 'replica']
+    for _ in range(120 if ctx.tier == 'quick' else 1200):
+        comps, _r, count = gen_replica_components(rng, sensitive=rng.random() < 0.3)
+        jobs.append((comps, {'x': 'vx', 'y': 'vy', 'nrep': count}))
+    if only is not None:
+        jobs = only
+    rec = {'calls': [], 'instr': None, 'cur': None}
+    o_agg, o_rs, o_pr = FI.__dict__['compile_component_aggregate'], FI.__dict__['replace_strings'], FI.__dict__['propagate_replicate']
+
+    def w_agg(cls, component, count, refs_to_replicate):
+        call = {'component': copy.deepcopy(component), 'count': count, 'received': refs_to_replicate, 'closure': None}
+        rec['cur'] = call
+        try:
+            return o_agg.__func__(cls, component, count, refs_to_replicate)
+        finally:
+            rec['cur'] = None
+            rec['calls'].append(call)
+
+    def w_rs(cls, obj, func, *a, **kw):
+        if rec['cur'] is not None and rec['cur']['closure'] is None:
+            rec['cur']['closure'] = func
+        return o_rs.__func__(cls, obj, func, *a, **kw)
+
+    def w_pr(cls, *a, **kw):
+        rec['instr'] = o_pr.__func__(cls, *a, **kw)
+        return rec['instr']
+    terms, descr = [], []
+    FI.compile_component_aggregate, FI.replace_strings, FI.propagate_replicate = classmethod(w_agg), classmethod(w_rs), classmethod(w_pr)
+    try:
+        for comps, gvars in jobs:
+            rec['calls'], rec['instr'] = [], None
+            try:
+                FI.apply_replicate(copy.deepcopy(comps), {'global': dict(gvars), 'stages': {}}, False, [], [])
+                ctx.count('s7:apply_replicate:ok')
+            except Exception as e:
+                ctx.count('s7:apply_replicate:raised:' + type(e).__name__)
+            for call in rec['calls']:
+                comp, count = call['component'], call['count']
+                stage = comp.get('stage', 0)
+                expected, tm = [], {}
+                for ref in comp.get('references', []):
+                    sidx, producer, filename, method = FI.ParseDataReferenceFull(ref, stage, application_dependencies=[],
+                                                                                special_folders=[])
+                    if sidx is None or (sidx, producer) not in rec['instr']:
+                        continue
+                    rep, is_agg = rec['instr'][(sidx, producer)]
+                    if not (rep is not None and rep > 0 and is_agg is False):
+                        continue
+                    ab = FI.compile_reference(producer, filename, method, stage_index=sidx)
+                    rl = FI.compile_reference(producer, filename, method)
+                    news = [FI.compile_reference(producer, filename, method, stage_index=sidx, replica_id=k) for k in range(count)]
+                    expected.append((ab, rl))
+                    tm.setdefault(ab, []).extend(news)
+                    tm.setdefault(rl, []).extend(news)
+                names = [e[1].split(':')[0].split('/')[0] for e in expected]
+                related = any(a != b and (a.endswith(b) or a.startswith(b)) for a in names for b in names)
+                ctx.case(['s7', comp.get('references'), comp['command'].get('arguments'), count], len(set(expected)) >= 2)
+                ctx.count('s7:aggregate:producers=%d%s' % (min(len(set(expected)), 3), ':related_names' if related else ''))
+                received = call['received']
+                if not isinstance(received, list) or list(received) != [e[0] for e in expected]:
+                    ctx.disagree({'component': comp, 'replicated_references_in_document_order': [e[0] for e in expected]},
+                                 '%s %r' % (type(received).__name__, sorted(received) if not isinstance(received, list) else received),
+                                 'the list in the order of the references field',
+                                 'C15 S7: collection of replicated references handed to compile_component_aggregate vs the '
+                                 'document-ordered list of Det.Aggregate.aggregate_list')
+                if call['closure'] is None:
+                    continue
+                if any(' '.join(tm[a]) != ' '.join(tm[r]) for a, r in expected):
+                    ctx.count('s7:outside_model:two_producers_share_a_relative_spelling')
+                    continue
+                strings = [comp['command'].get('arguments', '')] + list(comp.get('references', []))
+                sp = [x for e in expected for x in e] + ['plain', '-o']
+                for _ in range(2):
+                    strings.append(' '.join(rng.choice(sp) for _ in range(rng.randint(1, 4))))
+                for st in strings:
+                    if not isinstance(st, str):
+                        continue
+                    out = call['closure'](st)
+                    terms.append(cpair(cpair(clist(expected, lambda e: cpair(cpair(cstr(e[0]), cstr(e[1])), clist(tm[e[0]], cstr))),
+                                             cstr(st)), cstr(out)))
+                    descr.append({'component': comp, 'count': count, 'string': st, 'impl': out,
+                                  'replicated_references_in_document_order': expected})
+                if related:
+                    ctx.sample({'s7_references': comp.get('references'), 'arguments': comp['command'].get('arguments'),
+                                'aggregated': call['closure'](comp['command'].get('arguments', ''))}, limit=8)
+    finally:
+        FI.compile_component_aggregate, FI.replace_strings, FI.propagate_replicate = o_agg, o_rs, o_pr
+    bad = ctx.model_mismatches(HEADER_AGG, terms, 'check_aggregate', chunk=150, name='aggregate')
+    for i in bad:
+        ctx.disagree(descr[i], descr[i]['impl'], 'Det.Aggregate.aggregate_list (document order)',
+                     'C15 S7: string rewritten by the closure of compile_component_aggregate vs Det.Aggregate.aggregate_list')
+
+
 # ------------------------------------------------------------------ in-process: S6, component / environment naming
 NAME_POOL = ['a', 'b', 'a-I', 'stage1.a', 'stage0.b', 'x.y', 'b-I', 'stage1.b-I', 'gen', 'stage2.gen', 'a-II',
              'stage0.a', 'stage1.a-I', 'post', 'stage10.post']
@@ -940,6 +1260,55 @@ SORTED_SITES = [
      'S5 dsl.ComponentFlowIR.convert_outputreferences_to_datareferences: sorted(parameters_output.union(arguments_output))'),
 ]
 SET_METHODS = {'union', 'intersection', 'difference', 'symmetric_difference'}
+# calls that may receive a set without exposing its iteration order
+ORDER_BLIND_CALLEES = {'sorted', 'len', 'any', 'all', 'min', 'max', 'sum', 'set', 'frozenset', 'bool', 'isinstance', 'update',
+                       'issubset', 'issuperset', 'isdisjoint', 'intersection_update', 'difference_update', 'union',
+                       'intersection', 'difference', 'symmetric_difference', 'list', 'tuple', 'enumerate', 'iter', 'next',
+                       'join', 'extend', 'str', 'repr', 'type', 'id', 'print'}
+# S7-like sites: (file, function, variable, callees, site of Det.Model.oracle_sites): the variable must only ever be
+# bound to a list display / list comprehension in the function, and is handed to callees that iterate over it
+ORDERED_SITES = [
+    ('flowir.py', 'FlowIR.apply_replicate', 'replicated_refs', ('compile_component_aggregate', 'compile_component_replica'),
+     'S7 flowir.FlowIR.apply_replicate: replicated_refs is an ordered list, iterated by compile_component_aggregate / '
+     'compile_component_replica'),
+]
+_DEFS = {}     # function name -> [(file, FunctionDef)] over all scanned files
+
+
+def _iterated_params(fn):
+    """parameters of fn that fn iterates over (for / comprehension / list(), tuple(), enumerate(), join, extend) in a way
+    that exposes the order"""
+    params = [a.arg for a in fn.args.args] + [a.arg for a in fn.args.kwonlyargs]
+    absorbed = set()
+    for n in ast.walk(fn):
+        if isinstance(n, ast.Call) and isinstance(n.func, ast.Name) and n.args and \
+                n.func.id in ('sorted', 'len', 'any', 'all', 'min', 'max', 'sum', 'set', 'frozenset'):
+            absorbed.add(id(n.args[0]))
+    out = set()
+    for n in ast.walk(fn):
+        its = []
+        if isinstance(n, (ast.For, ast.AsyncFor)):
+            its.append(n.iter)
+        if isinstance(n, (ast.ListComp, ast.GeneratorExp, ast.DictComp)) and id(n) not in absorbed:
+            its += [g.iter for g in n.generators]
+        if isinstance(n, ast.Call) and id(n) not in absorbed and n.args and (
+                (isinstance(n.func, ast.Name) and n.func.id in ('list', 'tuple', 'enumerate', 'iter', 'next')) or
+                (isinstance(n.func, ast.Attribute) and n.func.attr in ('join', 'extend'))):
+            its.append(n.args[0])
+        for it in its:
+            if isinstance(it, ast.Name) and it.id in params and id(it) not in absorbed:
+                out.add(it.id)
+    return out
+
+
+def _callee_param(call, fn, pos=None, kw=None):
+    """the parameter of fn that receives positional argument pos / keyword kw of the call"""
+    params = [a.arg for a in fn.args.args]
+    if isinstance(call.func, ast.Attribute) and params and params[0] in ('self', 'cls'):
+        params = params[1:]
+    if kw is not None:
+        return kw if kw in params + [a.arg for a in fn.args.kwonlyargs] else None
+    return params[pos] if pos < len(params) else None
 
 
 def _is_set_expr(e, names):
@@ -1011,6 +1380,18 @@ def _scan_func(fn, qual, rel, hits, sorted_calls):
                 rec('materialise-set', n)
         if isinstance(n, ast.Assign) and _is_fs_expr(n.value):
             rec('fs-listing', n.value)
+        # a set handed to a function of the scanned files that iterates over the parameter which receives it
+        if isinstance(n, ast.Call):
+            callee = n.func.attr if isinstance(n.func, ast.Attribute) else (n.func.id if isinstance(n.func, ast.Name) else None)
+            if callee and callee not in ORDER_BLIND_CALLEES and callee in _DEFS:
+                passed = [(i, None, a) for i, a in enumerate(n.args)] + [(None, k.arg, k.value) for k in n.keywords if k.arg]
+                for pos, kw, a in passed:
+                    if not _is_set_expr(a, names):
+                        continue
+                    for _f, d in _DEFS[callee]:
+                        prm = _callee_param(n, d, pos, kw)
+                        if prm is not None and prm in _iterated_params(d):
+                            rec('set-passed-to-iterating-callee', ast.parse('%s(%s=%s)' % (callee, prm, ast.unparse(a))).body[0].value)
 
 
 def _walk_defs(node, prefix, rel, hits, sorted_calls):
@@ -1032,13 +1413,62 @@ def _walk_defs_nested(fn, prefix, rel, sorted_calls):
                     sorted_calls.add((rel, prefix + ch.name, ast.unparse(n)))
 
 
+def _ordered_site_problem(trees, fname, qual, var, callees):
+    """None if, in function qual of file fname, var is only ever bound to list displays / comprehensions and is handed
+    to (at least one of) the callees, each of which iterates over the parameter that receives it; else what is wrong"""
+    fn = None
+    for rel, tree in trees:
+        if os.path.basename(rel) != fname:
+            continue
+        for cls in ast.walk(tree):
+            if isinstance(cls, ast.ClassDef) and qual.startswith(cls.name + '.'):
+                for ch in cls.body:
+                    if isinstance(ch, (ast.FunctionDef, ast.AsyncFunctionDef)) and cls.name + '.' + ch.name == qual:
+                        fn = ch
+    if fn is None:
+        return '%s:%s not found' % (fname, qual)
+    binds = []
+    for n in ast.walk(fn):
+        if isinstance(n, ast.Assign) and any(isinstance(t, ast.Name) and t.id == var for t in n.targets):
+            binds.append(n.value)
+        if isinstance(n, ast.AnnAssign) and isinstance(n.target, ast.Name) and n.target.id == var and n.value is not None:
+            binds.append(n.value)
+    if not binds:
+        return '%s:%s no longer binds %s' % (fname, qual, var)
+    for b in binds:
+        if not isinstance(b, (ast.List, ast.ListComp)):
+            return '%s:%s binds %s to `%s`, which is not a list display' % (fname, qual, var, ast.unparse(b))
+    handed = 0
+    for n in ast.walk(fn):
+        if isinstance(n, ast.Call):
+            callee = n.func.attr if isinstance(n.func, ast.Attribute) else (n.func.id if isinstance(n.func, ast.Name) else None)
+            if callee in callees:
+                for i, a in enumerate(n.args):
+                    if isinstance(a, ast.Name) and a.id == var:
+                        for _f, d in _DEFS.get(callee, []):
+                            prm = _callee_param(n, d, i, None)
+                            if prm is None or prm not in _iterated_params(d):
+                                return '%s does not iterate over the parameter that receives %s' % (callee, var)
+                            handed += 1
+    if not handed:
+        return '%s:%s no longer hands %s to %s' % (fname, qual, var, '/'.join(callees))
+    return None
+
+
 def static_scan(ctx):
     import warnings
     hits, sorted_calls = set(), set()
+    trees = []
+    _DEFS.clear()
     for rel in SCAN_FILES:
         with warnings.catch_warnings():
             warnings.simplefilter('ignore')
             tree = ast.parse(open(os.path.join(common.REPO, rel)).read())
+        trees.append((rel, tree))
+        for n in ast.walk(tree):
+            if isinstance(n, (ast.FunctionDef, ast.AsyncFunctionDef)):
+                _DEFS.setdefault(n.name, []).append((os.path.basename(rel), n))
+    for rel, tree in trees:
         _walk_defs(tree, '', os.path.basename(rel), hits, sorted_calls)
     oracle_sites = set()
     for h in sorted(hits):
@@ -1060,6 +1490,13 @@ def static_scan(ctx):
         else:
             ctx.disagree({'site': site}, 'sorted(...) call not found', 'the model sorts at this site',
                          'C15 static scan: the code no longer sorts at %s' % site)
+    for f, q, var, callees, site in ORDERED_SITES:
+        why = _ordered_site_problem(trees, f, q, var, callees)
+        if why is None:
+            oracle_sites.add(site)
+        else:
+            ctx.disagree({'site': site}, why, 'an ordered list, iterated in document order',
+                         'C15 static scan: %s' % why)
     # S1 after the repair: the de-duplication must be the order-preserving one of the model (dedup_last)
     src = open(os.path.join(common.REPO, SCAN_FILES[0])).read()
     n_fix = src.count('variable_files = [p for i, p in enumerate(variable_files) if p not in variable_files[i + 1:]]')
@@ -1108,17 +1545,44 @@ def explore(ctx, vars_cases, pkg_cases):
     if vars_cases:
         outs = run_processes(ctx, vars_cases, 'vars')
         parsed = compare_processes(ctx, vars_cases, outs)
-        terms, tc = [], []
-        check_vars(ctx, vars_cases, parsed, terms, tc)
+        terms, tc, lt = [], [], []
+        vcases, vparsed = expand_loads(vars_cases, parsed)
+        check_vars(ctx, vcases, vparsed, terms, tc, lt)
         bad = ctx.model_mismatches(HEADER, terms, 'check_case', chunk=60, name='vars')
         for i in bad:
             ctx.disagree(tc[i], tc[i]['impl_user_variables'], 'Det.Model.load_variables / inject_stage (see check_case)',
                          'C15 S1+S2: user variables after %s vs Det.Model.load_variables' % tc[i]['how'])
+        bad = ctx.model_mismatches(HEADER, [t for t, _ in lt], 'check_layer', chunk=100, name='layer')
+        for i in bad:
+            ctx.disagree(lt[i][1], lt[i][1]['impl_layer_many'], 'Det.Model.layer_many id/rev',
+                         'C15 S2: layer_many_variable_files on the list as given vs Det.Model.layer_many')
+        # the loads of a session, in the order process 0 performed them, against Det.Model.session
+        st, sd = [], []
+        for case, dump in zip(vars_cases, parsed):
+            if 'loads' not in case:
+                continue
+            n = len(case['loads'])
+            shared = sum(1 for i in range(n) for j in range(i) if set(case['loads'][i]['given']) & set(case['loads'][j]['given'])
+                         and case['loads'][i]['given'] != case['loads'][j]['given'])
+            ctx.count('session:vars')
+            ctx.count('session:pairs_of_different_loads_sharing_a_file', shared)
+            for how in ('init', 'parametrize'):
+                uvs = [None if 'error' in d[how] else d[how]['uv'] for d in dump['session']]
+                st.append(cpair(clist(range(n), lambda i: cpair(clist(sorted(load_table(case, i).items()),
+                                                                       lambda kv: cpair(cstr(kv[0]), cjv(kv[1]))),
+                                                                 clist(case['loads'][i]['given'], cstr))),
+                                clist(uvs, lambda u: copt(u, cjv))))
+                sd.append({'case': short_case(case), 'how': how, 'impl_user_variables_per_load': uvs})
+        bad = ctx.model_mismatches(HEADER, st, 'check_session', chunk=40, name='session')
+        for i in bad:
+            ctx.disagree(sd[i], sd[i]['impl_user_variables_per_load'], 'Det.Model.session id/rev',
+                         'C15: user variables of the loads of one process vs Det.Model.session (%s)' % sd[i]['how'])
     if pkg_cases:
         outs = run_processes(ctx, pkg_cases, 'pkg')
         parsed = compare_processes(ctx, pkg_cases, outs)
         ref_terms = []
-        check_pkgs(ctx, pkg_cases, parsed, ref_terms)
+        vcases, vparsed = expand_loads(pkg_cases, parsed)
+        check_pkgs(ctx, vcases, vparsed, ref_terms)
         bad = ctx.model_mismatches(HEADER, [t for t, _ in ref_terms], 'check_refs', chunk=300, name='refs')
         for i in bad:
             ctx.disagree(ref_terms[i][1], ref_terms[i][1]['references'], 'sorted, duplicate free',
@@ -1140,7 +1604,15 @@ def run(ctx):
                 'least two references are replaced.  naming case = DSL namespace with 1-3 nested workflows, step names '
                 'that repeat / collide with de-duplicated names / carry stage prefixes, environments equal up to key order '
                 'and None values, through namespace_to_flowir as generated and key-permuted; non-trivial = converted '
-                'with >= 2 components')
+                'with >= 2 components.  session = a vars / pkg case with 3-6 loads performed one after the other in ONE '
+                'process, whose lists of variable files share files (other order, subsets, same list twice, repeated path, '
+                'now and then another content of a file); process v starts with load v mod n, so every load is also '
+                'performed by a process that has not touched the files before; every load is one case for the predicate '
+                'and the models (load_variables, layer_many, session).  replica pkg = FlowIR package with 2-3 replicating '
+                'producers with suffix / prefix related names (gen, mygen, remygen...) and an aggregating consumer using '
+                'relative / absolute spellings, loaded replicated in the 6 processes.  s7 case = one aggregating component '
+                'through the real apply_replicate: collection of replicated references and the aggregate() closure on '
+                'the strings of the component vs Det.Aggregate.aggregate_list; non-trivial = >= 2 replicated references')
     quick = ctx.tier == 'quick'
     vars_cases = [c for c in corpus_cases() if c['kind'] == 'vars']
     pkg_cases = [c for c in corpus_cases() if c['kind'] == 'pkg']
@@ -1151,10 +1623,19 @@ def run(ctx):
         pkg_cases.append(gen_flowir_pkg(rng))
     for _ in range(10 if quick else 60):
         pkg_cases.append(gen_dsl_pkg(rng))
+    # several loads in ONE process that share variable files (each process performs them in its own order)
+    for _ in range(14 if quick else 120):
+        vars_cases.append(gen_session_case(rng, 'vars'))
+    for _ in range(2 if quick else 12):
+        pkg_cases.append(gen_session_case(rng, 'pkg'))
+    # replicated loads: aggregating consumer of >= 2 replicating producers with prefix / suffix related names
+    for i in range(6 if quick else 50):
+        pkg_cases.append(gen_replica_pkg(rng, sensitive=(i % 2 == 0)))
     static_scan(ctx)
     explore(ctx, vars_cases, pkg_cases)
     inprocess(ctx)
     s5_inprocess(ctx)
+    s7_inprocess(ctx)
     naming_inprocess(ctx)
     ctx.extra['processes'] = {'hash_seeds': SEEDS, 'document_variants': len(SEEDS)}
 
@@ -1181,6 +1662,13 @@ def replay(ctx, path):
         print('replay file names no loadable case (proof / scan obligation): re-run ./check C15')
         return 2
     case = _from_corpus(c)
+    if 'session' in case:
+        # one load of a session: replay the whole session
+        ss = case.pop('session')
+        case['vfiles'], case['loads'] = ss['vfiles'], ss['loads']
+        case['given'] = case['loads'][0]['given']
+    if case['kind'] == 'pkg' and case.get('format') == 'flowir':
+        s7_inprocess(ctx, [(case['doc']['components'], case['doc'].get('variables', {}).get('default', {}).get('global', {}))])
     if case['kind'] == 'vars':
         explore(ctx, [case], [])
     else:
